@@ -41,6 +41,13 @@ def prehistory(rng, hist, vers):
     return steps
 
 
+# directed pre-histories: the late backup stores exactly a forgotten version again, so it adds no data of its own and
+# everything it needs lives in packs the concurrent prune marks (added after seeded change C10-recover-index-not-rewritten)
+DIRECTED = [[["backup", "v1"], ["forget", "v1"]],
+            [["backup", "v1"], ["backup", "v2"], ["forget", "v1"]],
+            [["backup", "v1"], ["forget", "v1"], ["prune", False], ["backup", "v2"]]]
+
+
 def schedule_programs(ctx, rng, hists, gates, pairs):
     progs = []
     n = 0
@@ -50,7 +57,8 @@ def schedule_programs(ctx, rng, hists, gates, pairs):
         vers["v2"] = gen.evolve(rng, base)
         vers["v3"] = gen.evolve(rng, vers["v2"])
         pre = prehistory(rng, hist, vers)
-        newfiles = gen.evolve(rng, vers[rng.choice(["v1", "v2", "v3"])])
+        directed = hist in DIRECTED
+        newfiles = vers["v1"] if directed else gen.evolve(rng, vers[rng.choice(["v1", "v2", "v3"])])
         popts = {"keep_delete": KD, "max_unused": rng.choice(["0%", "5%", "unlimited"]), "max_repack": "unlimited",
                  "repack_all": rng.random() < 0.3}
         tail = [{"cmd": "prune", "opts": {"keep_delete": KD, "max_unused": "0%", "max_repack": "unlimited"}},
@@ -69,6 +77,8 @@ def schedule_programs(ctx, rng, hists, gates, pairs):
         for (k, j) in pairs:
             variants.append(("backup@%d|prune@%d" % (k, j), {"cmd": "conc", "a": bk, "b": pr, "gate": k, "bgate": j}))
             variants.append(("prune@%d|backup@%d" % (k, j), {"cmd": "conc", "a": pr, "b": bk, "gate": k, "bgate": j}))
+        if directed:
+            variants = [v for v in variants if v[0].startswith("backup@") and "|prune" in v[0]]
         for name, cst in variants:
             cfg = {"chunk": 64, "pack": rng.choice([150, 300, 1000])}
             progs.append({"id": "c10-%d-%d" % (ctx.seed, n), "seed": ctx.seed * 100000 + n, "cfg": cfg, "probe": "step",
@@ -96,6 +106,7 @@ def run(ctx):
         hists = rng.sample(marked, 8) + rng.sample(plain, 4)
         gates = list(range(0, 40))
         pairs = [(rng.randint(0, 30), rng.randint(0, 35)) for _ in range(40)]
+    hists = hists + (DIRECTED[:2] if q else DIRECTED)
     progs = schedule_programs(ctx, rng, hists, gates, pairs)
     by_id = {p["id"]: p for p in progs}
     recs, r = run_trace(ctx, progs, "main", timeout=9000)
